@@ -53,7 +53,7 @@ def cases(ctx):
                 if ctx.mine(k):
                     yield {"kind": "bom", "legacy": legacy, "eol": eol, "dollar": dollar}
                 k += 1
-    for qi in range(3):
+    for qi in range(4):
         if ctx.mine(k):
             yield {"kind": "quoted", "i": qi}
         k += 1
@@ -132,11 +132,21 @@ current_version = "1.0.0"
 """
 
 
+COMMENT_REPEATS = """[bumpver]
+current_version = "1.0.0"  # 1.0.0 was released on 2026-09-30
+version_pattern = "MAJOR.MINOR.PATCH"
+
+[bumpver.file_patterns]
+"README.md" = ["Version {version}"]
+"""
+
+
 def run_quoted(ctx, case):
     """a multi-line value of the config file QUOTES something that looks like a bumpver section / a current_version key:
     the line bumpver itself reads current_version from is the one that has to show the announced version"""
     name, text, key_line = [("pyproject.toml", QUOTED_TOML, 'current_version = "{v}"'), ("setup.cfg", QUOTED_CFG, "current_version = {v}"),
-                            ("bumpver.toml", SELF_QUOTING, 'current_version = "{v}"')][case["i"]]
+                            ("bumpver.toml", SELF_QUOTING, 'current_version = "{v}"'),
+                            (".bumpver.toml", COMMENT_REPEATS, 'current_version = "{v}"  # 1.0.0 was released on 2026-09-30')][case["i"]]
     d = harness.new_project({name: text.encode(), "README.md": b"# demo\n\nVersion 1.0.0\n"})
     try:
         before = harness.snapshot(d)
@@ -154,6 +164,7 @@ def run_quoted(ctx, case):
             ctx.violation("other:config_current_version_differs_from_announced_version", f"{name}: update announced "
                           f"{res.record_value('New Version: ')!r} and exited 0, the key line still reads "
                           f"{[ln for ln in lines if ln.startswith('current_version')]}", case=case)
+            return
         s2 = harness.invoke(["show", "--no-fetch"], cwd=d)
         if s2.exit_code != 0 or s2.stdout_value("Current Version: ") != "1.0.1":
             ctx.violation("other:show_disagrees", f"{name}: show after the update: exit {s2.exit_code} {s2.stdout!r}", case=case)
